@@ -6,3 +6,10 @@ pub assume_specification<T, A: std::alloc::Allocator, I: IntoIterator<Item = T>>
     ensures final(v)@ == old(v)@ + iter_seq(it);
 pub broadcast axiom fn axiom_iter_seq_map_slice<'a, T, F: FnMut<(&'a T,)>>(m: core::iter::Map<core::slice::Iter<'a, T>, F>)
     ensures #[trigger] iter_seq(m) == vstd::std_specs::iter::IteratorSpec::remaining(&m), vstd::std_specs::iter::IteratorSpec::will_return_none(&m);
+
+// TRUSTED: Option::filter (std documentation): keeps Some(x) iff the predicate holds for &x
+pub assume_specification<T, P: FnOnce(&T) -> bool>[Option::<T>::filter](o: Option<T>, p: P) -> (r: Option<T>)
+    requires o is Some ==> p.requires((&o->Some_0,)),
+    ensures
+        o is None ==> r is None,
+        o is Some ==> (r is Some ==> r == o && p.ensures((&o->Some_0,), true)) && (r is None ==> p.ensures((&o->Some_0,), false));
